@@ -1138,4 +1138,31 @@ def m_parent_stmt(mod, node):
     return cur
 
 
-RULES = [r13_1, r13_2, r13_3, r13_4, r13_5, r13_6, r13_7, r13_8, r13_9, r13_10]
+def r13_11(ctx):
+    ctx.rule("R13.11", "segment lines break at '\\n' and nowhere else, and no character is dropped: in segment.py the line-splitting functions (split_lines, split_and_crop_lines and their helpers) divide segment text with partition('\\n') / split('\\n') - never str.splitlines() (which also breaks at \\r, \\v, \\f, \\x1c-\\x1e, \\x85, \\u2028, \\u2029) and never strip characters other than the '\\n' they split at")
+    m = ctx.repo.mod("segment")
+    n = 0
+    fns = [f for q, f in m.functions.items() if q.split(".")[-1] in ("split_lines", "split_and_crop_lines") or "split_lines" in q or "split_and_crop_lines" in q]
+    if not fns:
+        raise AnchorVanished("segment: split_lines / split_and_crop_lines not found")
+    for f in fns:
+        for x in walk_local(f.node):
+            if not (isinstance(x, ast.Call) and isinstance(x.func, ast.Attribute)):
+                continue
+            a = x.func.attr
+            where = f"{m.relpath}:{x.lineno}"
+            if a == "splitlines":
+                n += 1
+                ctx.violation(f.fq, short(x), where, f"`{short(x)}` breaks lines at every Unicode line boundary (\\r, \\x0b, \\x0c, \\x85, \\u2028 ...), not only at '\\n': Segment('a\\rb\\n') becomes two lines and the characters it split at are lost")
+            elif a in ("partition", "split", "rpartition", "rsplit") and x.args:
+                n += 1
+                sep = x.args[0]
+                ok = isinstance(sep, ast.Constant) and sep.value == "\n"
+                ctx.check(ok, f.fq, short(x), where, "split at '\\n'", f"`{short(x)}` splits segment text at {norm(sep)}, not at '\\n'")
+            elif a in ("strip", "rstrip", "lstrip") and x.args and isinstance(x.args[0], ast.Constant) and isinstance(x.args[0].value, str) and set(x.args[0].value) - {"\n"}:
+                n += 1
+                ctx.violation(f.fq, short(x), where, f"`{short(x)}` removes characters other than the new line from segment text: carriage returns (and whatever else is listed) vanish from the output")
+    ctx.floor(n, 2, "split primitives in the segment line-splitting functions")
+
+
+RULES = [r13_1, r13_2, r13_3, r13_4, r13_5, r13_6, r13_7, r13_8, r13_9, r13_10, r13_11]
